@@ -93,11 +93,68 @@ fn one(e: &Enc) -> (Stats, VioSet) {
             }
         }
     }
+    // ---- ASCII in context: after / before a mappable non-ASCII character and after punctuation,
+    // from both source forms (the encoders' inner loops differ by what preceded a character)
+    let mut first_mapped: Option<(u32, Vec<u8>)> = None;
+    let mut ctx_witness: Option<String> = None;
+    for c in 0x80..0x10000u32 {
+        if let Some(ch) = char::from_u32(c) {
+            let mut sb = [0u8; 4];
+            let mut encoder = e.imp.new_encoder();
+            let (res, _, written) = encoder.encode_from_utf8_without_replacement(ch.encode_utf8(&mut sb), &mut buf, true);
+            if res == encoding_rs::EncoderResult::InputEmpty && c != 0xA5 && c != 0x203E {
+                first_mapped = Some((c, buf[..written].to_vec()));
+                break;
+            }
+        }
+    }
+    if let Some((n, nbytes)) = &first_mapped {
+        let nch = char::from_u32(*n).unwrap();
+        for c in 0..0x80u32 {
+            let ch = char::from_u32(c).unwrap();
+            let texts: [(String, Vec<u8>); 4] = [
+                (format!("{}{}", nch, ch), [&nbytes[..], &[c as u8]].concat()),
+                (format!("{},{}", nch, ch), [&nbytes[..], &[0x2C, c as u8]].concat()),
+                (format!("{}{}", ch, nch), [&[c as u8], &nbytes[..]].concat()),
+                (format!("{}", ch), vec![c as u8]),
+            ];
+            for (text, want) in texts.iter() {
+                for from16 in [false, true] {
+                    stats.evaluations += 1;
+                    let mut encoder = e.imp.new_encoder();
+                    let mut out = [0u8; 64];
+                    let (res, written) = if from16 {
+                        let u: Vec<u16> = text.encode_utf16().collect();
+                        let (r, _, w) = encoder.encode_from_utf16_without_replacement(&u, &mut out, true);
+                        (r, w)
+                    } else {
+                        let (r, _, w) = encoder.encode_from_utf8_without_replacement(text, &mut out, true);
+                        (r, w)
+                    };
+                    if !(res == encoding_rs::EncoderResult::InputEmpty && &out[..written] == &want[..]) {
+                        enc_ascii_ok = false;
+                        if ctx_witness.is_none() {
+                            ctx_witness = Some(format!("{:?} from {} -> {:?} [{}]", text, if from16 { "UTF-16" } else { "UTF-8" }, res, hex(&out[..written])));
+                        }
+                    }
+                    // and the bytes decode back to the same characters
+                    stats.evaluations += 1;
+                    let ok = match decode_stream_single(e, BomMode::Off, Sink::Utf8, false, want) {
+                        Ok(r) => r.toks == text.chars().map(|x| Tok::Char(x as u32)).collect::<Vec<_>>(),
+                        Err(_) => false,
+                    };
+                    if !ok {
+                        ascii_roundtrip = false;
+                    }
+                }
+            }
+        }
+    }
     stats.nontrivial = stats.evaluations;
     // ---- predicates
     let want_ascii = ascii_roundtrip && enc_ascii_ok;
     if e.imp.is_ascii_compatible() != want_ascii {
-        add(&mut vios, "is_ascii_compatible", e.name, format!("{}: is_ascii_compatible() = {} but bytes 00-7F {} decode to themselves and those characters {} encode back to single bytes", e.name, e.imp.is_ascii_compatible(), if ascii_roundtrip { "do" } else { "do not" }, if enc_ascii_ok { "do" } else { "do not" }));
+        add(&mut vios, "is_ascii_compatible", e.name, format!("{}: is_ascii_compatible() = {} but bytes 00-7F {} decode to themselves and those characters {} encode back to single bytes", e.name, e.imp.is_ascii_compatible(), if ascii_roundtrip { "do" } else { "do not" }, if enc_ascii_ok { "do" } else { "do not" }) + &ctx_witness.as_ref().map(|w| format!(" (e.g. {})", w)).unwrap_or_default());
     }
     let want_single = units_equal_bytes && all_mappable_one_byte;
     if e.imp.is_single_byte() != want_single {
